@@ -1201,7 +1201,16 @@ class ProbabilisticTensorDictSequential(TensorDictSequential):
                         td_copy.update(dict(_zip_strict(tdm.dist_sample_keys, sample)))
                     else:
                         td_copy.update(sample)
-                dists[tdm.out_keys[0]] = dist
+                if isinstance(tdm, ProbabilisticTensorDictSequential):
+                    if isinstance(dist, CompositeDistribution):
+                        # a nested sequence that itself returns a composite: its heads are heads of this one
+                        dists.update(dist.dists)
+                    else:
+                        # the distribution of the nested sequence is the one of its last module: it is the
+                        # distribution of that module's sample (out_keys[0] of the sequence is a parameter)
+                        dists[tdm._last_module.dist_sample_keys[0]] = dist
+                else:
+                    dists[tdm.out_keys[0]] = dist
             else:
                 td_copy = tdm(td_copy)
         if len(dists) == 0:
